@@ -63,7 +63,17 @@ func objects(x *mon.Ctx, sha1Mode bool) {
 	}
 }
 
+// libR is the random source handed to the library during the current case. It is a
+// stream of its own, split off the case PRNG before anything else is drawn: the
+// library consumes a non-reproducible number of bytes (randutil.MaybeReadByte), which
+// must not shift the stream the generator takes its decisions from. Workloads run on
+// one goroutine.
+var libR *mon.Rand
+
+func splitLibRand(c *mon.Case) { libR = mon.NewRand(c.R.Uint64(), "c15.library-random-source") }
+
 func runObject(c *mon.Case, i int, kind string, sk keyKind, sha1Mode bool) {
+	splitLibRand(c)
 	r := c.R
 	signer, err := newKey(r, sk, 0)
 	if err != nil {
@@ -75,6 +85,11 @@ func runObject(c *mon.Case, i int, kind string, sk keyKind, sha1Mode bool) {
 		alg = ch[r.Intn(len(ch))]
 	}
 	uniq := fmt.Sprintf(" %x", r.Bytes(4))
+	if signer.kind == kSM2 {
+		// the public key is derived by the library from a fixed scalar: equal in every configuration
+		px, py := sm2XY(signer)
+		c.Digest(fmt.Sprintf("sm2-public-key/%d", i), append(px.Bytes(), py.Bytes()...))
+	}
 	switch kind {
 	case "cert", "cert-selfsigned":
 		certObject(c, kind == "cert-selfsigned", signer, alg, uniq)
@@ -114,7 +129,7 @@ func makeCA(c *mon.Case, k key, alg x509.SignatureAlgorithm, uniq string, tweak 
 	}
 	var der []byte
 	var err error
-	if !c.Call("CreateCertificate(CA)", func() { der, err = smx509.CreateCertificate(c.R, t, t, k.pub, k.priv) }) {
+	if !c.Call("CreateCertificate(CA)", func() { der, err = smx509.CreateCertificate(libR, t, t, k.pub, k.priv) }) {
 		return nil, nil, nil, false
 	}
 	if err != nil {
@@ -145,13 +160,11 @@ func certObject(c *mon.Case, selfSigned bool, signer key, alg x509.SignatureAlgo
 	var err error
 	if selfSigned {
 		subj = signer
-		var ok bool
 		tmpl = genCertTemplate(r, r.Intn(3) > 0, uniq)
 		tmpl.SignatureAlgorithm = alg
-		if !c.Call("CreateCertificate", func() { der, err = smx509.CreateCertificate(r, tmpl, tmpl, subj.pub, signer.priv) }) {
+		if !c.Call("CreateCertificate", func() { der, err = smx509.CreateCertificate(libR, tmpl, tmpl, subj.pub, signer.priv) }) {
 			return
 		}
-		_ = ok
 	} else {
 		var ok bool
 		if _, parent, _, ok = makeCA(c, signer, 0, "P"+uniq, nil); !ok {
@@ -164,7 +177,7 @@ func certObject(c *mon.Case, selfSigned bool, signer key, alg x509.SignatureAlgo
 		}
 		tmpl = genCertTemplate(r, r.Intn(4) == 0, uniq)
 		tmpl.SignatureAlgorithm = alg
-		if !c.Call("CreateCertificate", func() { der, err = smx509.CreateCertificate(r, tmpl, parent, subj.pub, signer.priv) }) {
+		if !c.Call("CreateCertificate", func() { der, err = smx509.CreateCertificate(libR, tmpl, parent, subj.pub, signer.priv) }) {
 			return
 		}
 	}
@@ -357,9 +370,6 @@ func independentSigCheck(c *mon.Case, what string, signer key, alg x509.Signatur
 	if alg != smx509.SM2WithSM3 {
 		return // reported by the field oracle already
 	}
-	pub := signer.priv.Public()
-	type xy interface{ Equal(x any) bool }
-	_ = pub
 	px, py := sm2XY(signer)
 	ok, err := refSM2Verify(px, py, tbs, sig)
 	c.Event("independent_sm2_verifications", 1)
@@ -486,7 +496,7 @@ func sweep(c *mon.Case, what string, der []byte, orig sigParts, fidelity bool, p
 		}
 		return "signature"
 	}
-	try := func(m []byte, desc string, reg string) {
+	try := func(m []byte, desc string, rg string) {
 		var p *sigParts
 		var perr, verr error
 		pi := mon.Try(func() { p, perr, verr = pv(m) })
@@ -499,18 +509,18 @@ func sweep(c *mon.Case, what string, der []byte, orig sigParts, fidelity bool, p
 		}
 		switch {
 		case perr != nil:
-			c.Event("alter/"+reg+"/parse_refused", 1)
+			c.Event("alter/"+rg+"/parse_refused", 1)
 		case verr != nil:
-			c.Event("alter/"+reg+"/signature_refused", 1)
+			c.Event("alter/"+rg+"/signature_refused", 1)
 		default:
 			same := bytes.Equal(p.tbs, orig.tbs) && bytes.Equal(p.sig, orig.sig) && p.alg == orig.alg
 			if !same {
 				c.Detail("altered", m)
 				c.Fail("accept", "%s %s (region %s) parses and its signature verifies although TBS/signature/algorithm differ from the original (tbs same=%v, sig same=%v, alg %v vs %v)",
-					what, desc, reg, bytes.Equal(p.tbs, orig.tbs), bytes.Equal(p.sig, orig.sig), p.alg, orig.alg)
+					what, desc, rg, bytes.Equal(p.tbs, orig.tbs), bytes.Equal(p.sig, orig.sig), p.alg, orig.alg)
 				return
 			}
-			c.Event("alter/"+reg+"/accepted_same_tbs_sig_alg", 1)
+			c.Event("alter/"+rg+"/accepted_same_tbs_sig_alg", 1)
 			if fidelity && !bytes.Equal(p.raw, m) {
 				c.Detail("altered", m)
 				c.Fail("accept", "%s %s accepted, but Raw (%d bytes) is not the input (%d bytes): bytes outside the object were ignored", what, desc, len(p.raw), len(m))
@@ -531,12 +541,12 @@ func sweep(c *mon.Case, what string, der []byte, orig sigParts, fidelity bool, p
 	for n := 0; n < len(der); n++ {
 		try(der[:n:n], fmt.Sprintf("truncated to %d of %d bytes", n, len(der)), "truncation")
 	}
-	reg := "trailing"
+	trail := "trailing"
 	if !fidelity {
-		reg = "trailing(not judged)"
+		trail = "trailing(Raw fidelity not judged)"
 	}
-	try(append(append([]byte{}, der...), 0x00), "with one trailing zero byte", reg)
-	try(append(append([]byte{}, der...), der...), "followed by a copy of itself", reg)
+	try(append(append([]byte{}, der...), 0x00), "with one trailing zero byte", trail)
+	try(append(append([]byte{}, der...), der...), "followed by a copy of itself", trail)
 	c.Event("sweeps", 1)
 	c.Event("sweep_bytes", len(der))
 }
@@ -570,7 +580,7 @@ func csrObject(c *mon.Case, signer key, alg x509.SignatureAlgorithm, uniq string
 	c.Class("csr/signer=%v/alg=%s/sans=%v/ext=%d", signer.kind, algName(alg), len(t.DNSNames)+len(t.EmailAddresses)+len(t.IPAddresses)+len(t.URIs) > 0, len(t.ExtraExtensions))
 	var der []byte
 	var err error
-	if !c.Call("CreateCertificateRequest", func() { der, err = smx509.CreateCertificateRequest(r, t, signer.priv) }) {
+	if !c.Call("CreateCertificateRequest", func() { der, err = smx509.CreateCertificateRequest(libR, t, signer.priv) }) {
 		return
 	}
 	if err != nil {
@@ -673,7 +683,7 @@ func cfcaObject(c *mon.Case, signer key, alg x509.SignatureAlgorithm, uniq strin
 	var der []byte
 	var err error
 	if !c.Call("CreateCFCACertificateRequest", func() {
-		der, err = smx509.CreateCFCACertificateRequest(r, t, signer.priv, tmpPub, pw)
+		der, err = smx509.CreateCFCACertificateRequest(libR, t, signer.priv, tmpPub, pw)
 	}) {
 		return
 	}
@@ -766,7 +776,7 @@ func crlObject(c *mon.Case, signer key, alg x509.SignatureAlgorithm, uniq string
 	c.Class("crl/signer=%v/alg=%s/entries=%d/ext=%d", signer.kind, algName(alg), len(t.RevokedCertificateEntries), len(t.ExtraExtensions))
 	var der []byte
 	var err error
-	if !c.Call("CreateRevocationList", func() { der, err = smx509.CreateRevocationList(r, t, issuer, signer.priv) }) {
+	if !c.Call("CreateRevocationList", func() { der, err = smx509.CreateRevocationList(libR, t, issuer, signer.priv) }) {
 		return
 	}
 	if err != nil {
